@@ -77,6 +77,7 @@ EventOK(e) ==
          ELSE \* round two: the report passes iff the two shares sum to zero modulo p
               LET s == BigAdd(El(e.vshares[1], f, 1), El(e.vshares[2], f, 1)) IN
               /\ e.ok = (Norm(s) = <<>> \/ BigEq(s, PrimeOf(f)))
+              /\ (e.honest => e.ok)                                   \* completeness: an honest report passes the sketch
               /\ e.ok => e.msg = <<>>
     [] e.ev = "vnext" ->
          LET f == IF e.leaf THEN F255 ELSE F64  sz == FieldSize(f) IN
